@@ -483,7 +483,7 @@ func TestC12_Envelopes(t *testing.T) {
 		return
 	}
 	f := fixtures()
-	rp.Check(t, 16000, 400000, func(rt *rapid.T) {
+	rp.Check(t, 16000, 400000, property(func(rt *rapid.T) {
 		b := f.bases[rapid.IntRange(0, len(f.bases)-1).Draw(rt, "base")]
 		c := &Case{Family: 1, Source: b.Name}
 		c.Input, c.Mutation = mutate(rt, b)
@@ -504,5 +504,5 @@ func TestC12_Envelopes(t *testing.T) {
 		}
 		cl := append([]string{"mutation=" + mutationClass(c.Mutation), "variant=" + b.Variant}, editClasses(c.Mutation)...)
 		runCase(rt, rec, c, cl...)
-	})
+	}))
 }
